@@ -114,6 +114,12 @@ CHECKS.update({
         note='Trusted: symnp engine (branch sampler, polynomial normal form modulo the sqrt/sin/cos axioms, folding of constant applications with constants re-read as simple fractions within 1e-13), z3. Initial axes / init matrices are concrete generic instances. Two defects repaired (slicing), one known finding (cone factories).',
         ref='DESIGN.md section 4 C19'),
 })
+CHECKS.update({
+    'C18': dict(
+        text='Fourier clauses: DiscreteFourierTransform(+Inverse) and FourierTransform(+Inverse) are executed on arrays of solver variables for shapes (2),(3),(4),(5),(6),(3,4),(4,3),(2,3,2), all axes subsets, halfcomplex, both signs, all per-axis shift combinations, real and complex dtypes, both back-ends: the DFT equals the discrete Fourier sum over the chosen axes (exact arithmetic for lengths 2,3,4,6), inverse(dft(x)) = x out-of-place, with out= and when applied twice (argument not destroyed), each back-end inverts the other, results do not depend on previous contents of outputs, temporaries and FFTW plan arrays (taint), plan and temporary re-use; the continuous transform equals s*phi_hat(xi_bar)*sum_j f(x_j)exp(-+i x_j xi_k) on the operator\'s own grids and its inverse recovers every input (affine in the input with float phase factors: exact bound over the box [-8,8]^n below 1e-9). The FFT libraries are replaced by their documented input/output relation (symnp.fftmodel) incl. FFTW\'s destruction of plan arrays and multi-dimensional c2r inputs; every path is compared with the real numpy.fft / FFTW at a sample point. Wavelet clauses and the Gaussian convergence clause are not decided (see level_note).',
+        note='NOT decided by this check: (i) wavelet decomposition/reconstruction identity and adjoint -- decomposition, reconstruction, ravel/unravel of coefficients all happen inside PyWavelets (compiled), ODL\'s own code is cropping and one scale factor, which cannot run on symbolic data without re-stating the library; (ii) convergence to the analytic Gaussian transform under refinement (asymptotic float statement; the exact quadrature formula is decided instead); (iii) equality of numpy.fft and FFTW themselves (both are replaced by the same documented relation; the comparison with the real libraries is one sample per path). Trusted: symnp engine, fftmodel, z3. Five defects repaired, two known findings.',
+        ref='DESIGN.md section 4 C18'),
+})
 NOT_YET = {}
 
 
